@@ -254,6 +254,11 @@ class Check(PropertyCheck):
                 for n in range(0, 3):
                     for seq in itertools.product(rel, repeat=n):
                         cases.append([("v", ver), ("start", k)] + list(seq))
+        # a scan whose result callbacks repeat (same channel, same reading): every one of them is returned, in order
+        for pre in ([], [("cbs", [("item", 11)])]):
+            for items in ([11, 11], [11, 12, 12, 11], [12, 11, 12, 12, 12]):
+                cases.append(pre + [("start", "scan"), ("reply", 1)] + [("cbs", [("item", i)]) for i in items] + [("cbs", [("complete", 1)])])
+                cases.append(pre + [("start", "scan"), ("cbs", [("item", items[0])]), ("reply", 1), ("cbs", [("item", i) for i in items] + [("complete", 1)])])
         # back-to-back callbacks
         for k in KINDS:
             for _ in range(40 if tier == "quick" else 400):
